@@ -474,6 +474,9 @@ def x3r_by_value_reader(text, log):
     the reborrow `&mut *reader` (`impl Read for &mut R` forwards)."""
     t2 = re.sub(r"<\s*R\s*:\s*Read(?:\s*\+\s*Seek)?\s*>", "", text)
     t2 = re.sub(r"\bmut reader\s*:\s*R\b", "reader: &mut VSource", t2)
+    # read_exact into a local declared as [u8; 16]: the prelude method for that array type
+    for arr in re.findall(r"let mut ([a-z_][a-z0-9_]*): \[u8; 16\]", t2):
+        t2 = t2.replace("reader.read_exact(&mut %s)" % arr, "reader.read_exact16(&mut %s)" % arr)
     t2 = t2.replace("&mut reader", "&mut *reader").replace("reader.by_ref()", "&mut *reader")
     t2 = re.sub(r"::<LittleEndian>", "", t2)
     if t2 != text:
@@ -481,7 +484,17 @@ def x3r_by_value_reader(text, log):
     return t2
 
 
+def x5e_arm_ref_pattern(text, log):
+    """match arm `&Enum::Variant(..) =>` on a reference scrutinee -> `Enum::Variant(..) =>`
+    (default binding modes: matching a reference against a non-reference pattern derefs it)"""
+    def f(m):
+        log.add("X5:arm-&Enum::Variant")
+        return m.group(1) + m.group(2)
+    return re.sub(r"(\n\s*)&([A-Z][A-Za-z0-9_]*::[A-Z][A-Za-z0-9_]*\([^)]*\)\s*=>)", f, text)
+
+
 OPTS = {
+    "x5e": x5e_arm_ref_pattern,
     "x3r": x3r_by_value_reader,
     "x5d": x5d_for_copy_tuple,
     "nopub": x1_nopub,
